@@ -223,17 +223,10 @@ Proof. vm_compute. reflexivity. Qed.
 (* model/Sim.v bh_push / bh_pop / bh_heapify are heapq's heappush / heappop / heapify on a list,
    bhs_* are SimulatorState.push / remove_events (filter + heapify) / next_until on it; the driver
    compares the ARRAY after every call with the real SimulatorState.event_heap.
-   Proved: the boolean heap check is sound and complete; the first entry of a heap is a minimum;
-   a heap and the sorted list holding the same events expose the same first event and are empty
-   together — so next_until, which looks at entry 0, takes the same decision and pops the same
-   event in both representations, and all theorems above (stated over the sorted list) apply.
-   PARTIAL: the full statement "for every sequence of push / next_until / remove_events the array is
-   a heap after every call (hence pops come in non-decreasing (time, insertion) order)" needs that
-   bh_push, bh_pop and bh_heapify preserve the heap condition; that is NOT proved here.  It is
-   checked at run time instead: [is_heap_b] (proved equivalent to the heap condition below) is
-   evaluated on the model's array and the independent checker tests the implementation's array
-   after every call of every generated sequence. *)
-Theorem c10_bheap_top_partial :
+   The boolean heap check is exact; the first entry of a heap is a minimum; a heap and the sorted list
+   holding the same events expose the same first event and are empty together — so next_until
+   decides and pops alike in both representations and the theorems stated over the sorted list apply. *)
+Theorem c10_bheap_top :
   (forall a, is_heap_b a = true <-> IsHeap a) /\
   (forall a, IsHeap a -> forall i, (i < length a)%nat -> key_le (nth 0 a hdummy) (nth i a hdummy)) /\
   (forall a l, IsHeap a -> Permutation a l -> StronglySorted key_lt l ->
@@ -241,7 +234,42 @@ Theorem c10_bheap_top_partial :
 Proof.
   split; [exact is_heap_b_spec|]. split; [exact heap_root_min | exact heap_top_is_sorted_head].
 Qed.
-Print Assumptions c10_bheap_top_partial.
+Print Assumptions c10_bheap_top.
+
+(* heappush and heappop (SimulatorState.push and next_until) on ANY heap array: the result is a heap
+   again and holds the same events plus / minus the one concerned; next_until returns an event iff the
+   smallest queued key is due, and the event it returns is queued, due, and <= every queued event in
+   the (time, insertion counter) order.  Over every sequence of push / next_until from the empty
+   queue the array is a heap after every call (last clause), so every pop of every such sequence
+   returns a minimum of the events queued at that moment. *)
+Theorem c10_bheap_push_pop :
+  (forall s t ev time, IsHeap (fst s) ->
+     IsHeap (fst (bhs_push s t ev time)) /\
+     Permutation (fst (bhs_push s t ev time)) (mkH time (snd s) t ev :: fst s)) /\
+  (forall s until, IsHeap (fst s) ->
+     match bhs_next_until s until with
+     | (Some x, s') => In x (fst s) /\ (forall y, In y (fst s) -> key_le x y) /\ h_time x <= until /\
+                       Permutation (fst s) (x :: fst s') /\ IsHeap (fst s') /\ snd s' = snd s
+     | (None, s') => s' = s /\ (forall y, In y (fst s) -> until < h_time y)
+     end) /\
+  (forall ops, IsHeap (fst (fold_left q_step ops (([], 0%nat) : bh_state)))).
+Proof.
+  split; [exact bhs_push_ok|]. split; [exact bhs_next_ok|].
+  intro ops. exact (q_run_heap ops ([], 0%nat) heap_nil).
+Qed.
+Print Assumptions c10_bheap_push_pop.
+
+(* remove_events = filter + heapify: it keeps exactly the events of the other trials (as a multiset).
+   PARTIAL: that heapify re-establishes the heap condition (so that sequences containing
+   remove_events are covered by the last clause of c10_bheap_push_pop as well) is NOT proved; it
+   is checked at run time: [is_heap_b] (exact, c10_bheap_top) on the model's array after every
+   call, the array compared with the implementation's event_heap, and the independent checker on
+   the implementation's array.  Full statement:
+     forall l, IsHeap (bh_heapify l). *)
+Theorem c10_bheap_remove_events_partial :
+  forall s t, Permutation (fst (bhs_remove s t)) (remove_events t (fst s)) /\ snd (bhs_remove s t) = snd s.
+Proof. intros s t. split; [exact (bhs_remove_perm s t)|reflexivity]. Qed.
+Print Assumptions c10_bheap_remove_events_partial.
 
 (* non-vacuity: pushes with ties, pops, a remove_events: the array is a heap after every step and
    the pops come out in (time, insertion) order *)
